@@ -14,7 +14,7 @@ import (
 	"verif/harness/internal/ref/rules"
 )
 
-const ruleLedger = "rapid state machine over 1 publisher node (arbitrating) and 1-2 follower nodes (real visor.Visor on real bolt files) with 7 key pairs, genesis volume in {1e9, 1e14, 2^63, 2^64-1000, 2^64-1}, generated verification parameters and block size limits; actions: build a spend from a node's unspent set (1-3 inputs, 1-4 outputs, amounts at 3-decimal precision, hours at the burn boundary) in one of 25 classes (valid, 5 soft-invalid, 13 hard-invalid incl. unknown/spent/duplicate input, coin creation/destruction by 1, hour creation by 1, wrong signer, bad inner hash/length, output-hour overflow), inject it (foreign or user, also re-injection) into any node, publisher assembles a block at head+{1,10,3600,1e6,2^40}, deliver published blocks in order / duplicated / skipping, craft and sign a next block for any node with one of 19 header mutations or 8 body mutations (double spend in block, spend of an output created in the block, spend of a spent output, invalid transaction, duplicate, reorder, dropped, empty), refresh, remove-invalid, restart; after every action the touched node's chain, stored headers+signatures, full unspent set, coin sum, metadata and pool (incl. validity flags) are compared with the reference model, and accept/reject of every injection and block must equal the model's prediction; "
+const ruleLedger = "rapid state machine over 1 publisher node (arbitrating) and 1-2 follower nodes (real visor.Visor on real bolt files) with 7 key pairs, genesis volume in {1e9, 1e14, 2^63, 2^64-1000, 2^64-1}, generated verification parameters and block size limits; actions: build a spend from a node's unspent set (1-3 inputs, 1-4 outputs, amounts at 3-decimal precision, hours at the burn boundary) in one of 25 classes (valid, 5 soft-invalid, 13 hard-invalid incl. unknown/spent/duplicate input, coin creation/destruction by 1, hour creation by 1, wrong signer, bad inner hash/length, output-hour overflow), inject it (foreign or user, also re-injection) into any node, publisher assembles a block at head+{1,10,3600,1e6,2^40}, deliver published blocks in order / duplicated / skipping, craft and sign a next block for any node with one of 24 header mutations (incl. an unspent-set hash that is flipped, zero, the parent's or random, and a zero body hash) or 11 body mutations (coins created or destroyed by a delta or by exactly 2^64 so that the 64-bit output sum wraps, double spend in block, spend of an output created in the block, spend of a spent output, invalid transaction, duplicate, reorder, dropped, empty), refresh, remove-invalid, restart; after every action the touched node's chain, stored headers+signatures, full unspent set, coin sum, metadata and pool (incl. validity flags) are compared with the reference model, and accept/reject of every injection and block must equal the model's prediction; "
 
 type focus struct {
 	prop    string
@@ -26,6 +26,10 @@ type focus struct {
 func runHistory(t *rapid.T, f focus) *world {
 	w := newWorld(t, genWorldCfg(t))
 	defer w.destroy()
+	if f.prop == "C03" {
+		// the histories of the coin-hour property draw the hour-related transaction classes more often
+		w.moreClasses = []string{"hard:hours", "hard:hours_overflow", "hard:hours_overflow", "hard:hours_overflow", "soft:nofee", "soft:lowfee"}
+	}
 	acts := map[string]func(*rapid.T){}
 	add := func(name string, fn func(*rapid.T)) {
 		n := f.weights[name]
